@@ -302,6 +302,24 @@ class ThreadSim(object):
                 if lib(a):
                     self.viol(u["i"], "mutated-url-verifies." + name, "entity=%s alg=%s" % (u["e"], u["alg"]))
                     break
+            # the same query signed by another implementation with the entity's own key under an algorithm this
+            # library does not support: "an unsupported algorithm never verifies", however good the signature is
+            from oracles.fedrules import fixture_priv
+            for uri, hcls in (("http://www.w3.org/2001/04/xmldsig-more#rsa-md5", hashes.MD5),
+                              ("http://www.w3.org/2001/04/xmldsig-more#rsa-sha3-256", hashes.SHA3_256),
+                              ("urn:example:sigalg:rsa-sha256-variant", hashes.SHA256)):
+                a = dict(args)
+                a["SigAlg"] = uri
+                oct2 = "&".join("%s=%s" % (k, urllib.parse.quote_plus(a[k])) for k in order if k in a).encode("ascii")
+                try:
+                    a["Signature"] = base64.b64encode(fixture_priv(u["key"]).sign(oct2, padding.PKCS1v15(), hcls())).decode()
+                except Exception:
+                    self.count("probe.foreign-alg.not-signable-here")
+                    continue
+                self.count("oracle.foreign-alg-signed")
+                if lib(a):
+                    self.viol(u["i"], "unsupported-algorithm-verifies", "entity=%s SigAlg=%s" % (u["e"], uri))
+                    break
             # a damaged or placeholder certificate is not the signer's certificate either
             own = cert_b64(u["key"])
             others = [cert_b64(k) for k in keys if k != u["key"]]
